@@ -1,4 +1,6 @@
 import Comdex.Lemmas.LiqOrders
+import Comdex.Lemmas.LiqAmmBridge
+import Comdex.Props.C05
 /-!
 # C04 — Liquidity custody: escrows, reserves and farmed pool coins are fully backed
 
@@ -13,8 +15,14 @@ Property clause → theorem
       → `escrow_ge_requests` (and the exact form `escrow_eq_requests`)
 * "each pair's escrow account holds at least the remaining offer coins of all its live orders"
       → `pair_escrow_exact` (always: escrow = Σ live (remaining + fee reserve) + what matching took in − handed out),
-        `pair_escrow_ge_orders` (for histories whose observed match results conserve coins, the law C05 establishes),
-        `pair_escrow_ge_orders_counterexample` (without that law — defect D2 of the matcher — the escrow can fall short)
+        `pair_escrow_ge_orders_offset` (always, NO premise: escrow + `lostOf` ≥ Σ remaining, where `lostOf a p ops` sums what
+          the match results of that pair handed out beyond what they took in),
+        `modelled_match_quote_exact`, `modelled_match_base_offset`, `modelled_match_deficit` (what C05 PROVES of the
+          modelled matcher, in ledger terms: the quote side of a modelled match balances exactly, the base side up to
+          `lostBase` = the remainder dropped by the re-runs of the pro-rata distribution, D2; 0 when `matchLossless`),
+        `pair_escrow_ge_orders_modelled` (escrow ≥ Σ remaining for histories whose match results are lossless runs of the
+          modelled matcher — no coin-conservation premise), `pair_escrow_ge_orders` (same from `MatchConserving`),
+        `pair_escrow_ge_orders_counterexample`, `d2_offset_witness` (the D2 book of C05: deficit exactly 1000 base)
 * "the liquidity module account holds exactly the pool coins recorded as farmed (queued plus active) for every pool"
       → `farm_custody_exact`
 * "every pool whose pool-coin supply has reached zero is marked disabled" → `zero_supply_disabled`
@@ -49,13 +57,73 @@ theorem pair_escrow_exact {cfg : Cfg} (hc : CfgOk cfg) (funds : List (Nat × Nat
       liveSum cfg a p d (after cfg funds ops).orders + (after cfg funds ops).bal (.mIn a p) d :=
   (reachable_inv hc funds ops).pairEsc a p d
 
+/-- **Pair escrow + lost ≥ remaining offer coins of the live orders — every history, no premise on the match results.**
+`lostOf a p ops` = Σ over the EndBlocker calls of app `a` of what the match results given for pair `p` handed out beyond
+what they took in (quote side + base side); it is 0 for conserving results and the dropped remainder for a D2 result. -/
+theorem pair_escrow_ge_orders_offset {cfg : Cfg} (hc : CfgOk cfg) (funds : List (Nat × Nat × Nat)) (ops : List Op)
+    (a p : Nat) (d : Denom) :
+    remSum a p d (after cfg funds ops).orders ≤ (after cfg funds ops).bal (.pairEscrow a p) d + lostOf a p ops := by
+  have h0 : (genesis funds).bal (.mOut a p) d ≤ (genesis funds).bal (.mIn a p) d + 0 := by
+    rw [genesis_bal _ _ _ (by simp), genesis_bal _ _ _ (by simp)]
+  have hs := runT_slack (cfg := cfg) a p d ops (genesis funds) 0 h0
+  have hs' : (after cfg funds ops).bal (.mOut a p) d ≤ (after cfg funds ops).bal (.mIn a p) d + lostOf a p ops := by
+    unfold after; omega
+  have h1 := escrow_ge_live_offset (reachable_inv hc funds ops) a p d (lostOf a p ops) hs'
+  have h2 := remSum_le_liveSum cfg a p d (after cfg funds ops).orders
+  omega
+
 /-- **Pair escrow ≥ remaining offer coins of the live orders**, for every history in which each observed match result
 hands out no more than it took in (per side). -/
 theorem pair_escrow_ge_orders {cfg : Cfg} (hc : CfgOk cfg) (funds : List (Nat × Nat × Nat)) (ops : List Op)
     (hcons : ∀ op ∈ ops, OpConserving op) (a p : Nat) (d : Denom) :
-    remSum a p d (after cfg funds ops).orders ≤ (after cfg funds ops).bal (.pairEscrow a p) d :=
-  Nat.le_trans (remSum_le_liveSum cfg a p d _)
-    (escrow_ge_live (reachable_inv hc funds ops) (runT_solvent ops hcons _ (genesis_solvent funds)) a p d)
+    remSum a p d (after cfg funds ops).orders ≤ (after cfg funds ops).bal (.pairEscrow a p) d := by
+  have := pair_escrow_ge_orders_offset hc funds ops a p d
+  rw [lostOf_zero_of_conserving a p ops hcons] at this
+  exact this
+
+/-! ### match results of the MODELLED matcher (C05): what is proved instead of assumed -/
+
+open Comdex.LiqBridge in
+/-- **quote side of a modelled match: exact.** For every well-formed book, `OrderBook.Match` (C05's model) returns a
+quote difference `q` with buyers' payments = sellers' receipts + `q`; with `q ≥ 0` (the code sends it as a coin to the dust
+collector) the ledger input built from the run has `outQ = inQ`. -/
+theorem modelled_match_quote_exact {b b' : Amm.Book} {lp mp q : Int} (h : ModelledRun b lp b' mp q) (hq : 0 ≤ q) (pair : Nat) :
+    outQ (matchInOf pair b b' q) = inQ (matchInOf pair b b' q) :=
+  (modelled_quote_exact h pair).2 hq
+
+open Comdex.LiqBridge in
+/-- **base side of a modelled match: buyers receive exactly what sellers pay plus the dropped remainder** `lostBase`
+(D2); nothing is dropped when C05's decidable ghost `matchLossless` holds (in particular the buy side never loses). -/
+theorem modelled_match_base_offset {b b' : Amm.Book} {lp mp q : Int} (h : ModelledRun b lp b' mp q) (pair : Nat) :
+    ((outB (matchInOf pair b b' q) : Nat) : Int) = inB (matchInOf pair b b' q) + lostBase b b' ∧
+    (Amm.matchLossless b lp = true → outB (matchInOf pair b b' q) = inB (matchInOf pair b b' q)) :=
+  modelled_base_offset h pair
+
+open Comdex.LiqBridge in
+/-- the ledger deficit of a modelled match = exactly the dropped remainder, on the base side only -/
+theorem modelled_match_deficit {b b' : Amm.Book} {lp mp q : Int} (h : ModelledRun b lp b' mp q) (hq : 0 ≤ q) (pair : Nat) :
+    defQ (matchInOf pair b b' q) = 0 ∧ defB (matchInOf pair b b' q) = (lostBase b b').toNat :=
+  modelled_deficit h hq pair
+
+/-- a match input that is a lossless run of the modelled matcher with non-negative dust -/
+def ModelledLossless (m : MatchIn) : Prop :=
+  ∃ (b b' : Amm.Book) (lp mp q : Int), LiqBridge.ModelledRun b lp b' mp q ∧ 0 ≤ q ∧ Amm.matchLossless b lp = true ∧
+    m = LiqBridge.matchInOf m.pair b b' q
+
+theorem modelledLossless_conserving {m : MatchIn} (h : ModelledLossless m) : MatchConserving m := by
+  obtain ⟨b, b', lp, mp, q, hr, hq, hl, he⟩ := h
+  rw [he]; exact LiqBridge.modelled_conserving hr hq hl m.pair
+
+/-- **Pair escrow ≥ remaining offer coins, for match results produced by the modelled matcher** (lossless runs): no
+coin-conservation premise — conservation is what C05 proves of the matcher. -/
+theorem pair_escrow_ge_orders_modelled {cfg : Cfg} (hc : CfgOk cfg) (funds : List (Nat × Nat × Nat)) (ops : List Op)
+    (hm : ∀ a ms ds ws, Op.endBlock a ms ds ws ∈ ops → ∀ m ∈ ms, ModelledLossless m) (a p : Nat) (d : Denom) :
+    remSum a p d (after cfg funds ops).orders ≤ (after cfg funds ops).bal (.pairEscrow a p) d := by
+  apply pair_escrow_ge_orders hc funds ops
+  intro op hop
+  cases op <;> try trivial
+  rename_i a' ms ds ws
+  exact fun m hmm => modelledLossless_conserving (hm a' ms ds ws hop m hmm)
 
 /-- **Farmed pool coins, exact.** -/
 theorem farm_custody_exact {cfg : Cfg} (hc : CfgOk cfg) (funds : List (Nat × Nat × Nat)) (ops : List Op) (a p : Nat) :
@@ -103,6 +171,15 @@ def opsD2 : List Op :=
 theorem pair_escrow_ge_orders_counterexample :
     (after cfg1 funds1 opsD2).bal (.pairEscrow 1 1) (.coin 1) < remSum 1 1 (.coin 1) (after cfg1 funds1 opsD2).orders := by
   decide
+
+/-- the D2 book of C05 (two sells 15000 @ 0.0001, one buy 16000 @ 0.0002, last price 0.00009) run through the modelled
+matcher: the ledger input built from the run has no quote deficit and a base deficit of exactly the 1000 dropped coins -/
+theorem d2_offset_witness :
+    ∃ b' mp q, Amm.matchBook (Amm.newBook C05.d2Orders) 90000000000000 = .ok b' mp q ∧
+      defQ (LiqBridge.matchInOf 1 (Amm.newBook C05.d2Orders) b' q) = 0 ∧
+      defB (LiqBridge.matchInOf 1 (Amm.newBook C05.d2Orders) b' q) = 1000 ∧
+      LiqBridge.lostBase (Amm.newBook C05.d2Orders) b' = 1000 :=
+  ⟨_, _, _, C05.base_conserved_counterexample.1, by decide, by decide, by decide⟩
 
 /-! ### Non-vacuity -/
 
